@@ -407,9 +407,21 @@ class APDCharacteristics:
     def to_dict(self) -> Mapping:
         """Get the attributes of this instance as a `dict`."""
         dct = {
-            "avalanche_gain": self._original_avalanche_gain,
-            "common_voltage": self._original_common_voltage,
-            "pixel_reset_voltage": self._original_pixel_reset_voltage,
+            "avalanche_gain": (
+                None
+                if self._original_avalanche_gain is None
+                else self._avalanche_gain
+            ),
+            "common_voltage": (
+                None
+                if self._original_common_voltage is None
+                else self._common_voltage
+            ),
+            "pixel_reset_voltage": (
+                None
+                if self._original_pixel_reset_voltage is None
+                else self._pixel_reset_voltage
+            ),
             "quantum_efficiency": self._quantum_efficiency,
             "full_well_capacity": self._full_well_capacity,
             "adc_voltage_range": self._adc_voltage_range,
